@@ -17,6 +17,8 @@ import (
 //	    remaining packet space through packetWriter.appendAckFrame, parsed back.
 //	parts "peer-ack", "peer-dup" (scripted peer against a real Conn, one synctest
 //	    bubble per case): see c25_peer_test.go.
+//	part "peer-dup-hs" (duplicates in the Initial/Handshake spaces while the
+//	    handshake is in flight, both sides): see c25_peer_long_test.go.
 
 // ---------------------------------------------------------------- part a
 
@@ -299,5 +301,6 @@ func TestVerif_C25(t *testing.T) {
 		c25PartA(c)
 		c25PartB(c)
 		c25PartC(c)
+		c25PartD(c)
 	})
 }
